@@ -23,7 +23,8 @@ RULE = ("k = 2..4 pids drawn from prefix-related names (mat, matt, matthew, MATT
         "delete_if_invalid_object - races a store/tag): at the moment an object file is unlinked or renamed away from "
         "its permanent address no non-empty cid reference list may exist for it. (c) many sharers: 140 (quick) / 600 "
         "(thorough) pids with long names on one object - a cid list of 10-40 KB, rewritten in place on every delete - "
-        "stored, tagged, deleted and re-stored in random order with the model comparison after every call. "
+        "stored, tagged, deleted and re-stored in random order with the model comparison after every call; and 280 pids of "
+        "about 4000 characters each (a list of more than 1 MiB). "
         "distinct_nontrivial = distinct (set of "
         "pids still bound, call shape, outcome) observations with at least one pid still bound.")
 ASSUMPTIONS = []
@@ -89,6 +90,9 @@ def shards(tier, seed):
     # (c) many sharers: a cid list much longer than one I/O buffer, rewritten in place many times
     for s in split_seeds(seed + 4004, 2 if tier == "quick" else n):
         out.append(("long", 140 if tier == "quick" else 600, tier, s))
+    # identifiers of thousands of characters: a cid list beyond one MiB (larger than any read / write block)
+    for s in split_seeds(seed + 4005, 1 if tier == "quick" else 4):
+        out.append(("long", -280, tier, s))
     # (b) removal-time invariant under controlled interleavings: every pair scenario with a call that can remove
     # an object (delete_object / delete_if_invalid_object) racing a call that references one
     from .. import concprops as P
@@ -149,7 +153,14 @@ def run_long(npids, sub_seed):
     scratch = new_scratch("c04l")
     contents = {k: make_content(v["cseed"], v["size"]) for k, v in SPEC.items()}
     try:
-        pids = [f"urn:uuid:{rng.getrandbits(128):032x}:{'x' * rng.randrange(0, 40)}:{i}" for i in range(npids)]
+        full_every = 1
+        if npids < 0:
+            full_every = 12        # a 1 MiB list: the full directory comparison every 12th call, outcomes always
+            npids = -npids
+            pids = [f"{i}:" + "".join(rng.choice("abcdefghijklmnopqrstuvwxyz0123456789/._-") for _ in range(rng.randrange(3900, 4100)))
+                    for i in range(npids)]
+        else:
+            pids = [f"urn:uuid:{rng.getrandbits(128):032x}:{'x' * rng.randrange(0, 40)}:{i}" for i in range(npids)]
         from ..seqengine import World
         w = World(scratch, contents, DOCS, pids=pids)
         ops = [{"op": "store", "pid": p, "content": "S", "kind": "path"} if i % 3 else {"op": "tag", "pid": p, "cid": ["of", "S"]}
@@ -166,6 +177,18 @@ def run_long(npids, sub_seed):
         before = None
         for i, op in enumerate(ops):
             last = i == len(ops) - 1
+            if full_every > 1 and i % full_every and not last:
+                expect = w.model.apply(op)
+                out, _ex = w.execute(op)
+                res.evaluations += 1
+                before = None
+                if not expect.admits(out):
+                    res.violation({"symptom": "outcome", "op": op["op"], "got": out.brief(),
+                                   "sharers": "many (cid list longer than one buffer)"},
+                                  {"engine": "C04-long", "npids": npids, "seed": sub_seed, "step": i, "op": {k: (v if k != "pid" else v[:40] + "...") for k, v in op.items()},
+                                   "msg": out.msg})
+                    break
+                continue
             out, findings, _b, before = w.step(op, i, before=before, check_retrievable=False)
             res.evaluations += 1
             if i % 10 == 0 or last:
